@@ -35,6 +35,8 @@ type procRec struct {
 }
 
 type readerRec struct {
+	Kind  string             `json:"kind"`
+	RID   string             `json:"rid"`
 	Name  string             `json:"name"`
 	Exit  int                `json:"exit"`
 	Items []map[string]any   `json:"items"`
@@ -57,6 +59,9 @@ type Scenario struct {
 	Cmds    map[string]Cmd   `json:"cmds"`
 	Readers []string         `json:"readers"`
 	NoLock  bool             `json:"nolock"`
+	Legacy  bool             `json:"legacy"`
+	RKind   string           `json:"rkind"`
+	RID     string           `json:"rid"`
 }
 
 type procState struct {
@@ -68,7 +73,7 @@ type procState struct {
 var writerPoints = map[string]bool{"lock.flock": true, "lock.acquired": true, "read.scanned": true,
 	"append.before": true, "tmp.before": true, "rename.before": true, "lock.releasing": true, "lock.released": true,
 	"ensure.create": true}
-var readerPoints = map[string]bool{"read.open": true, "read.probed": true}
+var readerPoints = map[string]bool{"path.plans": true, "path.legacy": true, "path.default": true, "read.open": true, "read.probed": true}
 
 type runner struct {
 	e        *Env
@@ -79,6 +84,7 @@ type runner struct {
 	procs    map[string]*Proc
 	inLock   map[string]bool
 	scanned  map[string]bool    // the snapshot read of the current lock section has been taken
+	rsteps   map[string]int     // model steps taken by each reader
 	snaps    [][]map[string]any // log after every controller step
 	rwin     map[string][2]int  // reader -> [first, last] snapshot index
 	torn     string
@@ -122,6 +128,9 @@ func (r *runner) ensure(name string) *Proc {
 	args, stdin := invocation(r.cmdOf(name), r.ids)
 	if r.isReader(name) {
 		args = []string{"--json", "list", "--all"}
+		if r.scn.RKind == "show" {
+			args = []string{"--json", "show", r.ids.real(r.scn.RID)}
+		}
 		stdin = nil
 		r.rwin[name] = [2]int{len(r.snaps) - 1, -1}
 	}
@@ -147,12 +156,22 @@ func (r *runner) track(name string, rec *HookRec) {
 // advance takes one model step of process `name`: the code up to the next
 // sync point at which the process-layer model parks a process.
 func (r *runner) advance(name string) {
+	if _, started := r.procs[name]; !started && r.isReader(name) {
+		// a reader's first step is choosing the log file: starting the process
+		// parks it at its first sync point, which is exactly that
+		r.rsteps[name]++
+		r.ensure(name)
+		return
+	}
 	p := r.ensure(name)
 	if p.Exited() && p.parked == nil {
 		return
 	}
 	if r.isReader(name) {
-		if p.parked != nil && p.parked.Point == "read.probed" {
+		// the model's reader takes four steps (path, open, scan+probe, exit); whatever
+		// further sync points the real reader has are passed in the final run to completion
+		r.rsteps[name]++
+		if r.rsteps[name] >= 4 {
 			p.Finish()
 			r.closeReader(name)
 			return
@@ -235,6 +254,11 @@ func (e *Env) realise(tag string, scn Scenario, sched [][]string, workdir string
 	if err := writeCraftedLog(st, scn.Init); err != nil {
 		return nil, err
 	}
+	if scn.Legacy {
+		if err := os.Rename(filepath.Join(st.ErgoDir(), "plans.jsonl"), filepath.Join(st.ErgoDir(), "events.jsonl")); err != nil {
+			return nil, err
+		}
+	}
 	if scn.NoLock {
 		_ = os.Remove(filepath.Join(st.ErgoDir(), "lock"))
 	}
@@ -252,7 +276,7 @@ func (e *Env) realise(tag string, scn Scenario, sched [][]string, workdir string
 		return nil, err
 	}
 	defer ctl.Close()
-	r := &runner{e: e, scn: scn, st: st, ids: ids, ctl: ctl, procs: map[string]*Proc{}, inLock: map[string]bool{}, scanned: map[string]bool{},
+	r := &runner{e: e, scn: scn, st: st, ids: ids, ctl: ctl, procs: map[string]*Proc{}, inLock: map[string]bool{}, scanned: map[string]bool{}, rsteps: map[string]int{},
 		rwin: map[string][2]int{}, torn: "none"}
 	r.snapshot()
 	for _, s := range sched {
@@ -359,9 +383,27 @@ func (e *Env) realise(tag string, scn Scenario, sched [][]string, workdir string
 	for _, n := range rnames {
 		p := r.procs[n]
 		res := p.Result()
-		rr := readerRec{Name: n, Exit: res.Exit, Items: []map[string]any{}, Snaps: [][]map[string]any{}, err: string(res.Stderr)}
+		rr := readerRec{Kind: r.scn.RKind, RID: r.scn.RID, Name: n, Exit: res.Exit, Items: []map[string]any{}, Snaps: [][]map[string]any{}, err: string(res.Stderr)}
 		var items []listItem
-		if json.Unmarshal(res.Stdout, &items) == nil {
+		if r.scn.RKind == "show" {
+			var wrap struct {
+				Epic     *showOut  `json:"epic"`
+				Children []showOut `json:"children"`
+			}
+			var single showOut
+			var all []showOut
+			if json.Unmarshal(res.Stdout, &wrap) == nil && wrap.Epic != nil {
+				all = append([]showOut{*wrap.Epic}, wrap.Children...)
+			} else if json.Unmarshal(res.Stdout, &single) == nil && single.ID != "" {
+				all = []showOut{single}
+			} else if res.Exit == 0 {
+				rr.Exit = 3
+			}
+			for _, it := range all {
+				rr.Items = append(rr.Items, map[string]any{"id": ids.model(it.ID), "state": it.State, "claim": it.ClaimedBy,
+					"epic": ids.model(it.EpicID), "title": it.Title})
+			}
+		} else if json.Unmarshal(res.Stdout, &items) == nil {
 			for _, it := range items {
 				rr.Items = append(rr.Items, map[string]any{"id": ids.model(it.ID), "state": it.State, "claim": it.ClaimedBy,
 					"epic": ids.model(it.EpicID), "title": it.Title, "ready": it.Ready, "blocked": it.Blocked})
